@@ -3,10 +3,11 @@ usage: seed_eval.py PID N WORKTREE "needs text"
 Reads WORKTREE/seed_<PID>_<N>.diff and demo_<PID>_<N>.py; writes /verif/seeded/<PID>_<N>/ (patch.diff, demo.py, meta.json)."""
 import json, os, re, shutil, subprocess, sys
 pid, n, wt, needs = sys.argv[1:5]
+store_n = sys.argv[5] if len(sys.argv) > 5 else n      # round-2 seeds are stored under another number
 sid = '%s_%s' % (pid, n)
 diff = os.path.join(wt, 'seed_%s.diff' % sid)
 demo = os.path.join(wt, 'demo_%s.py' % sid)
-out = os.path.join('/verif/seeded', sid)
+out = os.path.join('/verif/seeded', '%s_%s' % (pid, store_n))
 os.makedirs(out, exist_ok=True)
 def sh(cmd, cwd=None, env=None, timeout=1800):
     e = dict(os.environ); e.update(env or {})
